@@ -28,7 +28,7 @@ func c10Clients() []ClientSpec {
 	}
 }
 
-var c10AuthVariants = []string{"", "", "", "bad_secret", "empty_secret", "other_secret", "rotated", "post", "basic", "both", "none", "unknown_client", "malformed_header", "bad_urlencoding",
+var c10AuthVariants = []string{"", "", "", "bad_secret", "empty_secret", "other_secret", "rotated", "post", "basic", "both", "split", "split", "none", "unknown_client", "malformed_header", "bad_urlencoding",
 	"assert:ok", "assert:wrong_key", "assert:alg_none", "assert:alg_hs256", "assert:iss_wrong", "assert:aud_wrong", "assert:expired", "assert:jti_missing", "assert:other_clients_key"}
 
 func init() {
